@@ -2,6 +2,7 @@
   Property C13 — ABI type strings are accepted exactly when valid, and normalise idempotently.
   Model: FFS.Model.Abi (AbiTypes.lean) mirrors the parser of pkg/abi/typecomponents.go;
   the elementary type table is regenerated (FFS.Gen.AbiTypeTable). Spec: FFS.Spec.AbiGrammar.
+  Headline: `parse_agrees` / `accepts_iff_grammar` / `rendered_is_canonical` (parse ⇔ grammar with canonical spelling).
 -/
 import FFS.Model.AbiTypes
 import FFS.Spec.AbiGrammar
@@ -192,6 +193,804 @@ theorem uint_width_sound {s : List Char} {m : Nat} (info : ElemInfo) (hi : info 
     rcases hi with h | h | h | h | h | h | h | h | h <;> subst h <;> simp at hn <;> simp
   rw [hrow.1, hrow.2.1, hrow.2.2] at hs
   exact ⟨hs.2.1, hs.2.2.1, hs.2.2.2.1 (by decide), hs.1⟩
+
+/-! ## parse ⇔ grammar
+
+The remaining sections prove that the model parser and the independently written recogniser `Spec.AbiGrammar.canon`
+agree on every parameter: acceptance, and the canonical spelling of what is accepted (`parse_agrees`). Finite facts
+about decimal numerals of at most three digits are settled by kernel evaluation over all of them (`decide +kernel`,
+no axiom); everything else is structural. -/
+
+open FFS.Spec.AbiGrammar (isDigit decVal canonical validWidth validBytesLen validPrecision arrayDims canonBase renderDims P canon canonList)
+
+/-! ### parse ⇔ grammar -/
+
+def digits : List Char := ['0', '1', '2', '3', '4', '5', '6', '7', '8', '9']
+
+theorem isDigit_mem {c : Char} (h : isDigit c = true) : c ∈ digits := by
+  simp only [isDigit, Bool.and_eq_true, decide_eq_true_eq] at h
+  have h1 : 48 ≤ c.toNat := by
+    have := h.1; rw [Char.le_def, UInt32.le_iff_toNat_le] at this; exact this
+  have h2 : c.toNat ≤ 57 := by
+    have := h.2; rw [Char.le_def, UInt32.le_iff_toNat_le] at this; exact this
+  have hc : c = Char.ofNat c.toNat := (Char.ofNat_toNat c).symm
+  have : c.toNat = 48 ∨ c.toNat = 49 ∨ c.toNat = 50 ∨ c.toNat = 51 ∨ c.toNat = 52 ∨ c.toNat = 53 ∨ c.toNat = 54 ∨
+      c.toNat = 55 ∨ c.toNat = 56 ∨ c.toNat = 57 := by omega
+  rcases this with h | h | h | h | h | h | h | h | h | h <;> (rw [hc, h]; decide)
+
+/-- every canonical numeral of at most three digits is the decimal print of its value (finite check) -/
+theorem format_decVal_small : ∀ a ∈ digits, ∀ b ∈ digits, ∀ c ∈ digits,
+    (canonical [a] = true → formatUint (decVal [a]) = [a]) ∧
+    (canonical [a, b] = true → formatUint (decVal [a, b]) = [a, b]) ∧
+    (canonical [a, b, c] = true → formatUint (decVal [a, b, c]) = [a, b, c]) := by decide +kernel
+
+theorem format_decVal {s : List Char} (hc : canonical s = true) (hl : s.length ≤ 3) : formatUint (decVal s) = s := by
+  have hall : ∀ c ∈ s, c ∈ digits := by
+    intro c hc'
+    simp only [canonical, Bool.and_eq_true] at hc
+    exact isDigit_mem (List.all_eq_true.mp hc.1.2 c hc')
+  match s, hc, hl, hall with
+  | [], hc, _, _ => simp [canonical] at hc
+  | [a], hc, _, hall => exact (format_decVal_small a (hall a (by simp)) a (hall a (by simp)) a (hall a (by simp))).1 hc
+  | [a, b], hc, _, hall =>
+    exact (format_decVal_small a (hall a (by simp)) b (hall b (by simp)) a (hall a (by simp))).2.1 hc
+  | [a, b, c], hc, _, hall =>
+    exact (format_decVal_small a (hall a (by simp)) b (hall b (by simp)) c (hall c (by simp))).2.2 hc
+  | _ :: _ :: _ :: _ :: _, _, hl, _ => exact absurd hl (by simp)
+
+
+theorem parseUint_eq (s : List Char) (bits : Nat) :
+    parseUint s bits = if s.isEmpty then none else if s.all isDigit then
+      (if decVal s < 2 ^ bits then some (decVal s) else none) else none := rfl
+
+/-- the decimal print of every value below 1000 is a canonical numeral of at most three digits denoting it -/
+theorem format_small : ∀ m, m < 1000 →
+    canonical (formatUint m) = true ∧ (formatUint m).length ≤ 3 ∧ decVal (formatUint m) = m ∧
+    (m < 100 → (formatUint m).length ≤ 2) := by decide +kernel
+
+/-- a numeral check of the grammar: canonical, at most `maxLen` digits, value in [lo, hi], multiple of `md` -/
+def okNum (lo hi md maxLen : Nat) (s : List Char) : Bool :=
+  canonical s && decide (s.length ≤ maxLen) && (decide (lo ≤ decVal s) && decide (decVal s ≤ hi) && (md == 0 || decVal s % md == 0))
+
+theorem parseM_isSome (info : ElemInfo) (s : List Char) (hmax : info.mMax ≤ 999) :
+    (parseM info s).isSome = okNum info.mMin info.mMax info.mMod 3 s := by
+  cases hp : parseM info s with
+  | some m =>
+    obtain ⟨hf, h1, h2, h3, _⟩ := parseM_sound hp
+    obtain ⟨g1, g2, g3, _⟩ := format_small m (by omega)
+    rw [hf] at g1 g2 g3
+    simp only [Option.isSome_some, okNum, g1, g2, g3, h1, h2, decide_true, Bool.true_and, Bool.and_true]
+    by_cases hm : info.mMod = 0
+    · simp [hm]
+    · have := h3 hm; simp [this]
+  | none =>
+    simp only [Option.isSome_none]
+    by_cases hok : okNum info.mMin info.mMax info.mMod 3 s = true
+    · exfalso
+      simp only [okNum, Bool.and_eq_true, decide_eq_true_eq, Bool.or_eq_true, beq_iff_eq] at hok
+      obtain ⟨⟨hc, hl⟩, ⟨hlo, hhi⟩, hmd⟩ := hok
+      have hf := format_decVal hc hl
+      have hne : s.isEmpty = false := by
+        cases s with
+        | nil => simp [canonical] at hc
+        | cons _ _ => rfl
+      have hd : s.all isDigit = true := by
+        simp only [canonical, Bool.and_eq_true] at hc; exact hc.1.2
+      have hlt : decVal s < 2 ^ 16 := by omega
+      have hpu : parseUint s 16 = some (decVal s) := by
+        rw [parseUint_eq]; simp [hne, hd, hlt]
+      unfold parseM at hp
+      rw [hpu] at hp
+      simp only [hf, bne_self_eq_false, Bool.and_false, Bool.false_eq_true, if_false] at hp
+      rw [if_neg (by simp; omega)] at hp
+      rcases hmd with hmd | hmd
+      · simp [hmd] at hp
+      · simp [hmd] at hp
+    · simpa using hok
+
+
+theorem parseN_isSome (info : ElemInfo) (s : List Char) (hmax : info.nMax ≤ 999) :
+    (parseN info s).isSome = okNum info.nMin info.nMax 0 3 s := by
+  cases hp : parseN info s with
+  | some m =>
+    obtain ⟨hf, h1, h2⟩ := parseN_sound hp
+    obtain ⟨g1, g2, g3, _⟩ := format_small m (by omega)
+    rw [hf] at g1 g2 g3
+    simp [okNum, g1, g2, g3, h1, h2]
+  | none =>
+    simp only [Option.isSome_none]
+    by_cases hok : okNum info.nMin info.nMax 0 3 s = true
+    · exfalso
+      simp only [okNum, Bool.and_eq_true, decide_eq_true_eq, Bool.or_eq_true, beq_iff_eq] at hok
+      obtain ⟨⟨hc, hl⟩, ⟨hlo, hhi⟩, _⟩ := hok
+      have hf := format_decVal hc hl
+      have hne : s.isEmpty = false := by
+        cases s with
+        | nil => simp [canonical] at hc
+        | cons _ _ => rfl
+      have hd : s.all isDigit = true := by
+        simp only [canonical, Bool.and_eq_true] at hc; exact hc.1.2
+      have hlt : decVal s < 2 ^ 16 := by omega
+      have hpu : parseUint s 16 = some (decVal s) := by
+        rw [parseUint_eq]; simp [hne, hd, hlt]
+      unfold parseN at hp
+      rw [hpu] at hp
+      simp only [hf, bne_self_eq_false, Bool.and_false, Bool.false_eq_true, if_false] at hp
+      rw [if_neg (by simp; omega)] at hp
+      cases hp
+    · simpa using hok
+
+/-- a canonical numeral denoting a value below 100 has at most two digits -/
+theorem okNum_len2 (lo hi md : Nat) (s : List Char) (hhi : hi < 100) : okNum lo hi md 2 s = okNum lo hi md 3 s := by
+  by_cases hc : canonical s = true
+  · by_cases hl3 : s.length ≤ 3
+    · by_cases hv : decVal s ≤ hi
+      · have hf := format_decVal hc hl3
+        have := (format_small (decVal s) (by omega)).2.2.2 (by omega)
+        rw [hf] at this
+        simp [okNum, hc, hl3, this]
+      · simp [okNum, hv]
+    · have : ¬ s.length ≤ 2 := by omega
+      simp [okNum, hl3, this]
+  · simp [okNum, hc]
+
+theorem validWidth_eq (s : List Char) : validWidth s = okNum 8 256 8 3 s := by
+  simp [validWidth, okNum]
+
+theorem validBytesLen_eq (s : List Char) : validBytesLen s = okNum 1 32 0 3 s := by
+  rw [← okNum_len2 1 32 0 s (by decide)]; simp [validBytesLen, okNum]
+
+theorem validPrecision_eq (s : List Char) : validPrecision s = okNum 1 80 0 3 s := by
+  rw [← okNum_len2 1 80 0 s (by decide)]; simp [validPrecision, okNum]
+
+/-- what the grammar says about a base name and suffix, as a verdict on the model's elementary branch -/
+def ElemAgrees (r : Outcome Ty) (c : Option String) : Prop :=
+  match r with
+  | .ok t => c = some (render t)
+  | .err => c = none
+  | .panic => False
+
+theorem str_append_ofList (b : String) (l : List Char) : b ++ String.ofList l = String.ofList (b.toList ++ l) := by
+  apply String.ext; simp
+
+/-- split of an `M x N` suffix: the model's index arithmetic and the grammar's pattern match agree -/
+theorem mxn_split (suffix : List Char) :
+    (suffix.dropWhile (· != 'x') = [] ∧ (suffix.takeWhile (· != 'x')).length = suffix.length) ∨
+    (∃ n, suffix.dropWhile (· != 'x') = 'x' :: n ∧ suffix.length = (suffix.takeWhile (· != 'x')).length + 1 + n.length ∧
+      suffix.drop ((suffix.takeWhile (· != 'x')).length + 1) = n) := by
+  have hsplit := List.takeWhile_append_dropWhile (p := (· != 'x')) (l := suffix)
+  cases hd : suffix.dropWhile (· != 'x') with
+  | nil =>
+    left
+    rw [hd, List.append_nil] at hsplit
+    exact ⟨rfl, by rw [hsplit]⟩
+  | cons c n =>
+    right
+    have hc : c = 'x' := by
+      have := List.head_dropWhile_not (p := (· != 'x')) (l := suffix) (by rw [hd]; simp)
+      simpa [hd] using this
+    subst hc
+    refine ⟨n, rfl, ?_, ?_⟩
+    · have := congrArg List.length hsplit
+      rw [hd] at this
+      simp only [List.length_append, List.length_cons] at this; omega
+    · have h2 : suffix = suffix.takeWhile (· != 'x') ++ ('x' :: n) := by rw [← hd]; exact hsplit.symm
+      generalize suffix.takeWhile (· != 'x') = tw at h2 ⊢
+      subst h2
+      rw [List.drop_append]
+      have h1 : List.drop (tw.length + 1) tw = [] := List.drop_eq_nil_of_le (by omega)
+      have h3 : tw.length + 1 - tw.length = 1 := by omega
+      rw [h1, h3]; rfl
+
+
+theorem elem_none (info : ElemInfo) (suffix : List Char) (hst : info.suffixType = .none) (hdef : info.defaultSuffix = "") :
+    ElemAgrees (elementaryOf info (if suffix.isEmpty then info.defaultSuffix.toList else suffix))
+      (if suffix.isEmpty then some info.name else none) := by
+  unfold elementaryOf
+  rw [hst, hdef]
+  cases suffix with
+  | nil => simp [ElemAgrees, render]
+  | cons c t => simp [ElemAgrees]
+
+theorem elem_mRequired (info : ElemInfo) (suffix : List Char) (hst : info.suffixType = .mRequired)
+    (hdef : info.defaultSuffix = "256") (hrow : info.mMin = 8 ∧ info.mMax = 256 ∧ info.mMod = 8) :
+    ElemAgrees (elementaryOf info (if suffix.isEmpty then info.defaultSuffix.toList else suffix))
+      (if suffix.isEmpty then some (info.name ++ "256") else if validWidth suffix then some (info.name ++ String.ofList suffix) else none) := by
+  unfold elementaryOf
+  rw [hst, hdef]
+  have hsome := parseM_isSome info
+  cases suffix with
+  | nil =>
+    have h256 : parseM info "256".toList = some 256 := by
+      have := hsome "256".toList (by omega)
+      rw [hrow.1, hrow.2.1, hrow.2.2] at this
+      have hok : okNum 8 256 8 3 "256".toList = true := by decide
+      rw [hok] at this
+      cases hp : parseM info "256".toList with
+      | none => rw [hp] at this; cases this
+      | some m =>
+        have := (parseM_sound hp).1
+        have hm : m = 256 := by
+          have h2 : decVal (formatUint m) = decVal "256".toList := by rw [this]
+          have h3 := (format_small m (by have := (parseM_sound hp).2.2.1; omega)).2.2.1
+          rw [h3] at h2; rw [h2]; decide
+        rw [hm]
+    have h256' : parseM info ['2', '5', '6'] = some 256 := h256
+    simp [ElemAgrees, render, h256']
+  | cons c t =>
+    have := hsome (c :: t) (by omega)
+    rw [hrow.1, hrow.2.1, hrow.2.2, ← validWidth_eq] at this
+    simp only [List.isEmpty_cons, Bool.false_eq_true, if_false]
+    cases hp : parseM info (c :: t) with
+    | none => rw [hp] at this; simp at this; simp [ElemAgrees, this]
+    | some m => rw [hp] at this; simp at this; simp [ElemAgrees, render, this]
+
+
+theorem elem_mOptional (info : ElemInfo) (suffix : List Char) (hst : info.suffixType = .mOptional)
+    (hdef : info.defaultSuffix = "") (hrow : info.mMin = 1 ∧ info.mMax = 32 ∧ info.mMod = 0) :
+    ElemAgrees (elementaryOf info (if suffix.isEmpty then info.defaultSuffix.toList else suffix))
+      (if suffix.isEmpty then some info.name else if validBytesLen suffix then some (info.name ++ String.ofList suffix) else none) := by
+  unfold elementaryOf
+  rw [hst, hdef]
+  cases suffix with
+  | nil => simp [ElemAgrees, render]
+  | cons c t =>
+    have := parseM_isSome info (c :: t) (by omega)
+    rw [hrow.1, hrow.2.1, hrow.2.2, ← validBytesLen_eq] at this
+    simp only [List.isEmpty_cons, Bool.false_eq_true, if_false]
+    cases hp : parseM info (c :: t) with
+    | none => rw [hp] at this; simp at this; simp [ElemAgrees, this]
+    | some m => rw [hp] at this; simp at this; simp [ElemAgrees, render, this]
+
+theorem parseMxN_default (info : ElemInfo) (hrow : info.mMin = 8 ∧ info.mMax = 256 ∧ info.mMod = 8 ∧ info.nMin = 1 ∧ info.nMax = 80) :
+    parseMxN info ['1', '2', '8', 'x', '1', '8'] = some (128, 18) := by
+  have hm : parseM info ['1', '2', '8'] = some 128 := by
+    have := parseM_isSome info ['1', '2', '8'] (by omega)
+    rw [hrow.1, hrow.2.1, hrow.2.2.1] at this
+    have hok : okNum 8 256 8 3 ['1', '2', '8'] = true := by decide
+    rw [hok] at this
+    cases hp : parseM info ['1', '2', '8'] with
+    | none => rw [hp] at this; cases this
+    | some m =>
+      have hs := parseM_sound hp
+      have h3 := (format_small m (by omega)).2.2.1
+      rw [hs.1] at h3
+      rw [← h3]; decide
+  have hn : parseN info ['1', '8'] = some 18 := by
+    have := parseN_isSome info ['1', '8'] (by omega)
+    rw [hrow.2.2.2.1, hrow.2.2.2.2] at this
+    have hok : okNum 1 80 0 3 ['1', '8'] = true := by decide
+    rw [hok] at this
+    cases hp : parseN info ['1', '8'] with
+    | none => rw [hp] at this; cases this
+    | some m =>
+      have hs := parseN_sound hp
+      have h3 := (format_small m (by omega)).2.2.1
+      rw [hs.1] at h3
+      rw [← h3]; decide
+  unfold parseMxN
+  have htw : List.takeWhile (· != 'x') ['1', '2', '8', 'x', '1', '8'] = ['1', '2', '8'] := by decide
+  simp only [htw]
+  simp [hm, hn]
+
+theorem elem_mxn (info : ElemInfo) (suffix : List Char) (hst : info.suffixType = .mxnRequired)
+    (hdef : info.defaultSuffix = "128x18")
+    (hrow : info.mMin = 8 ∧ info.mMax = 256 ∧ info.mMod = 8 ∧ info.nMin = 1 ∧ info.nMax = 80) :
+    ElemAgrees (elementaryOf info (if suffix.isEmpty then info.defaultSuffix.toList else suffix))
+      (if suffix.isEmpty then some (info.name ++ "128x18")
+       else match suffix.dropWhile (· != 'x') with
+         | _ :: n => if validWidth (suffix.takeWhile (· != 'x')) && validPrecision n then some (info.name ++ String.ofList suffix) else none
+         | [] => none) := by
+  unfold elementaryOf
+  rw [hst, hdef]
+  cases suffix with
+  | nil =>
+    have hd : parseMxN info ['1', '2', '8', 'x', '1', '8'] = some (128, 18) := parseMxN_default info hrow
+    have hl : "128x18".toList = ['1', '2', '8', 'x', '1', '8'] := by decide
+    simp [ElemAgrees, render, hl, hd]
+  | cons c t =>
+    simp only [List.isEmpty_cons, Bool.false_eq_true, if_false]
+    have hM := parseM_isSome info ((c :: t).takeWhile (· != 'x')) (by omega)
+    rw [hrow.1, hrow.2.1, hrow.2.2.1, ← validWidth_eq] at hM
+    rcases mxn_split (c :: t) with ⟨hdw, hlen⟩ | ⟨n, hdw, hlen, hdrop⟩
+    · rw [hdw]
+      have : parseMxN info (c :: t) = none := by
+        unfold parseMxN
+        simp only []
+        rw [if_pos (by rw [hlen]; omega)]
+      simp [ElemAgrees, this]
+    · rw [hdw]
+      simp only []
+      have hN := parseN_isSome info n (by omega)
+      rw [hrow.2.2.2.1, hrow.2.2.2.2, ← validPrecision_eq] at hN
+      cases n with
+      | nil =>
+        have : parseMxN info (c :: t) = none := by
+          unfold parseMxN
+          simp only []
+          rw [if_pos (by rw [hlen]; simp)]
+        have hvp : validPrecision [] = false := by decide
+        simp [ElemAgrees, this, hvp]
+      | cons d n' =>
+        have hgo : parseMxN info (c :: t) =
+            match parseM info ((c :: t).takeWhile (· != 'x')) with
+            | none => none
+            | some m => match parseN info (d :: n') with
+              | none => none
+              | some k => some (m, k) := by
+          unfold parseMxN
+          simp only []
+          rw [if_neg (by rw [hlen]; simp), hdrop]
+          rfl
+        rw [hgo]
+        cases hpm : parseM info ((c :: t).takeWhile (· != 'x')) with
+        | none => rw [hpm] at hM; simp at hM; simp [ElemAgrees, hM]
+        | some m =>
+          rw [hpm] at hM; simp at hM
+          cases hpn : parseN info (d :: n') with
+          | none => rw [hpn] at hN; simp at hN; simp [ElemAgrees, hM, hN]
+          | some k => rw [hpn] at hN; simp at hN; simp [ElemAgrees, render, hM, hN]
+
+
+def row (n : String) : ElemInfo := (table.find? (fun i => i.name == n)).getD default
+
+theorem no_row (b : String) (h : b ≠ "address" ∧ b ≠ "bool" ∧ b ≠ "bytes" ∧ b ≠ "fixed" ∧ b ≠ "function" ∧ b ≠ "int" ∧
+    b ≠ "string" ∧ b ≠ "ufixed" ∧ b ≠ "uint") : table.find? (fun i => i.name == b) = none := by
+  obtain ⟨h1, h2, h3, h4, h5, h6, h7, h8, h9⟩ := h
+  rw [List.find?_eq_none]
+  intro i hi
+  simp only [table, List.mem_cons, List.mem_nil_iff, or_false] at hi
+  rcases hi with hi | hi | hi | hi | hi | hi | hi | hi | hi <;> subst hi <;> simp <;> (intro hh; simp_all)
+
+/-- **The elementary branch agrees with the grammar**: for every base name and suffix, the model accepts exactly when
+    the grammar does, and then the rendered type is the canonical spelling. -/
+theorem parseElementary_agrees (et suffix : List Char) :
+    ElemAgrees (parseElementary et suffix) (canonBase et suffix) := by
+  unfold parseElementary canonBase
+  generalize String.ofList et = b
+  simp only []
+  by_cases h9 : b = "uint"
+  · subst h9
+    have hf : table.find? (fun i => i.name == "uint") = some (row "uint") := rfl
+    rw [hf]
+    have := elem_mRequired (row "uint") suffix rfl rfl ⟨rfl, rfl, rfl⟩
+    simpa [show (row "uint").name = "uint" from rfl] using this
+  by_cases h6 : b = "int"
+  · subst h6
+    have hf : table.find? (fun i => i.name == "int") = some (row "int") := rfl
+    rw [hf]
+    have := elem_mRequired (row "int") suffix rfl rfl ⟨rfl, rfl, rfl⟩
+    simpa [show (row "int").name = "int" from rfl] using this
+  by_cases h3 : b = "bytes"
+  · subst h3
+    have hf : table.find? (fun i => i.name == "bytes") = some (row "bytes") := rfl
+    rw [hf]
+    have := elem_mOptional (row "bytes") suffix rfl rfl ⟨rfl, rfl, rfl⟩
+    simpa [show (row "bytes").name = "bytes" from rfl] using this
+  by_cases h4 : b = "fixed"
+  · subst h4
+    have hf : table.find? (fun i => i.name == "fixed") = some (row "fixed") := rfl
+    rw [hf]
+    have := elem_mxn (row "fixed") suffix rfl rfl ⟨rfl, rfl, rfl, rfl, rfl⟩
+    simp [show (row "fixed").name = "fixed" from rfl] at this ⊢
+    exact this
+  by_cases h8 : b = "ufixed"
+  · subst h8
+    have hf : table.find? (fun i => i.name == "ufixed") = some (row "ufixed") := rfl
+    rw [hf]
+    have := elem_mxn (row "ufixed") suffix rfl rfl ⟨rfl, rfl, rfl, rfl, rfl⟩
+    simp [show (row "ufixed").name = "ufixed" from rfl] at this ⊢
+    exact this
+  by_cases h1 : b = "address"
+  · subst h1
+    have hf : table.find? (fun i => i.name == "address") = some (row "address") := rfl
+    rw [hf]
+    have := elem_none (row "address") suffix rfl rfl
+    simpa [show (row "address").name = "address" from rfl] using this
+  by_cases h2 : b = "bool"
+  · subst h2
+    have hf : table.find? (fun i => i.name == "bool") = some (row "bool") := rfl
+    rw [hf]
+    have := elem_none (row "bool") suffix rfl rfl
+    simpa [show (row "bool").name = "bool" from rfl] using this
+  by_cases h5 : b = "function"
+  · subst h5
+    have hf : table.find? (fun i => i.name == "function") = some (row "function") := rfl
+    rw [hf]
+    have := elem_none (row "function") suffix rfl rfl
+    simpa [show (row "function").name = "function" from rfl] using this
+  by_cases h7 : b = "string"
+  · subst h7
+    have hf : table.find? (fun i => i.name == "string") = some (row "string") := rfl
+    rw [hf]
+    have := elem_none (row "string") suffix rfl rfl
+    simpa [show (row "string").name = "string" from rfl] using this
+  · rw [no_row b ⟨h1, h2, h3, h4, h5, h6, h7, h8, h9⟩]
+    simp [ElemAgrees, h1, h2, h3, h4, h5, h6, h7, h8, h9]
+
+/-- the array layers the grammar reads off a suffix, applied to a child type -/
+def wrap : Ty → List (Option Nat) → Ty
+  | c, [] => c
+  | c, none :: r => wrap (.darr c) r
+  | c, some k :: r => wrap (.farr c k) r
+
+theorem render_wrap : ∀ (dims : List (Option Nat)) (c : Ty), render (wrap c dims) = render c ++ renderDims dims
+  | [], c => by simp [wrap, renderDims]
+  | none :: r, c => by
+    rw [wrap, render_wrap r, render, renderDims, String.append_assoc]
+  | some k :: r, c => by
+    rw [wrap, render_wrap r, render, renderDims]
+    simp [String.append_assoc]
+
+theorem takeWhile_append_of_all {α : Type} (p : α → Bool) (a b : List α) (h : ∀ x ∈ a, p x = true) :
+    (a ++ b).takeWhile p = a ++ b.takeWhile p := by
+  induction a with
+  | nil => rfl
+  | cons x t ih =>
+    have hx := h x (by simp)
+    simp only [List.cons_append, List.takeWhile_cons, hx, if_true]
+    rw [ih (fun y hy => h y (by simp [hy]))]
+
+theorem dropWhile_append_of_all {α : Type} (p : α → Bool) (a b : List α) (h : ∀ x ∈ a, p x = true) :
+    (a ++ b).dropWhile p = b.dropWhile p := by
+  induction a with
+  | nil => rfl
+  | cons x t ih =>
+    have hx := h x (by simp)
+    simp only [List.cons_append, List.dropWhile_cons, hx, if_true]
+    exact ih (fun y hy => h y (by simp [hy]))
+
+theorem digit_ne_close {c : Char} (h : isDigit c = true) : (c != ']') = true := by
+  have := isDigit_mem h
+  simp only [digits, List.mem_cons, List.mem_nil_iff, or_false] at this
+  rcases this with h | h | h | h | h | h | h | h | h | h <;> subst h <;> decide
+
+theorem takeWhile_all {α : Type} (p : α → Bool) (l : List α) : ∀ x ∈ l.takeWhile p, p x = true := by
+  induction l with
+  | nil => intro x hx; simp at hx
+  | cons a t ih =>
+    intro x hx
+    simp only [List.takeWhile_cons] at hx
+    by_cases ha : p a = true
+    · rw [if_pos ha] at hx
+      simp only [List.mem_cons] at hx
+      rcases hx with h | h
+      · rw [h]; exact ha
+      · exact ih x h
+    · rw [if_neg ha] at hx; simp at hx
+
+
+/-- one bracket group: what the model's `arrayComponent` makes of a run of digits -/
+theorem arrayComponent_digits (child : Ty) (ds : List Char) (hd : ∀ c ∈ ds, isDigit c = true) :
+    arrayComponent child ds =
+      if ds.isEmpty then .ok (.darr child)
+      else if decVal ds < 2 ^ 32 then .ok (.farr child (decVal ds)) else .err := by
+  unfold arrayComponent
+  cases ds with
+  | nil => rfl
+  | cons c t =>
+    have hall : (c :: t).all isDigit = true := List.all_eq_true.mpr hd
+    simp only [List.isEmpty_cons, Bool.false_eq_true, if_false]
+    rw [parseUint_eq]
+    simp only [List.isEmpty_cons, Bool.false_eq_true, if_false, hall, if_true]
+    by_cases hv : decVal (c :: t) < 2 ^ 32 <;> simp [hv]
+
+theorem arrayComponent_nondigit (child : Ty) (m : List Char) (c : Char) (hc : c ∈ m) (hn : isDigit c = false) :
+    arrayComponent child m = .err := by
+  unfold arrayComponent
+  have hne : m.isEmpty = false := by cases m with | nil => simp at hc | cons _ _ => rfl
+  have hall : m.all isDigit = false := by
+    rw [Bool.eq_false_iff]
+    intro h
+    have := List.all_eq_true.mp h c hc
+    rw [hn] at this; cases this
+  rw [hne, parseUint_eq, hne]
+  simp [hall]
+
+/-- **The array suffix agrees with the grammar** (any fuel that covers the suffix, on both sides). -/
+theorem arrays_agree : ∀ (f1 f2 : Nat) (s : List Char) (child : Ty), s.length < f1 → s.length < f2 → s ≠ [] →
+    match arrayDims f2 s with
+    | some dims => parseArrays f1 child s = .ok (wrap child dims)
+    | none => parseArrays f1 child s = .err := by
+  intro f1
+  induction f1 with
+  | zero => intro f2 s child h; omega
+  | succ k ih =>
+    intro f2 s child h1 h2 hne
+    cases f2 with
+    | zero => omega
+    | succ j =>
+      cases s with
+      | nil => exact absurd rfl hne
+      | cons c0 rest =>
+        by_cases hc0 : c0 = '['
+        · subst hc0
+          have hsplit := List.takeWhile_append_dropWhile (p := isDigit) (l := rest)
+          have hds := takeWhile_all isDigit rest
+          generalize hdsd : rest.takeWhile isDigit = ds at hsplit hds
+          cases hafter : rest.dropWhile isDigit with
+          | nil =>
+            -- digits up to the end: no closing bracket
+            rw [hafter, List.append_nil] at hsplit
+            have hnd : rest.dropWhile (· != ']') = [] := by
+              rw [← hsplit, ← List.append_nil ds, dropWhile_append_of_all _ _ _ (fun x hx => digit_ne_close (hds x hx))]
+              rfl
+            simp only [arrayDims, hdsd, hafter, parseArrays, hnd]
+          | cons c more' =>
+            rw [hafter] at hsplit
+            by_cases hcc : c = ']'
+            · subst hcc
+              have htw : rest.takeWhile (· != ']') = ds := by
+                rw [← hsplit, takeWhile_append_of_all _ _ _ (fun x hx => digit_ne_close (hds x hx))]
+                simp
+              have hdw : rest.dropWhile (· != ']') = ']' :: more' := by
+                rw [← hsplit, dropWhile_append_of_all _ _ _ (fun x hx => digit_ne_close (hds x hx))]
+                simp
+              have hlen : rest.length = ds.length + 1 + more'.length := by
+                rw [← hsplit]; simp; omega
+              simp only [arrayDims, hdsd, hafter, parseArrays, hdw, htw]
+              rw [arrayComponent_digits child ds hds]
+              by_cases he : ds.isEmpty = true
+              · simp only [he, if_true]
+                cases more' with
+                | nil =>
+                  have : arrayDims j [] = some [] := by
+                    cases j with
+                    | zero => simp at h2
+                    | succ _ => rfl
+                  simp [this, wrap]
+                | cons m0 mt =>
+                  have := ih j (m0 :: mt) (.darr child) (by simp at h1 hlen ⊢; omega) (by simp at h2 hlen ⊢; omega) (by simp)
+                  simp only [List.isEmpty_cons, Bool.false_eq_true, if_false]
+                  cases hd2 : arrayDims j (m0 :: mt) with
+                  | none => rw [hd2] at this; simp [this]
+                  | some r => rw [hd2] at this; simp [this, wrap]
+              · simp only [he, Bool.false_eq_true, if_false]
+                by_cases hv : decVal ds < 2 ^ 32
+                · simp only [hv, if_true]
+                  cases more' with
+                  | nil =>
+                    have : arrayDims j [] = some [] := by
+                      cases j with
+                      | zero => simp at h2
+                      | succ _ => rfl
+                    simp [this, wrap]
+                  | cons m0 mt =>
+                    have := ih j (m0 :: mt) (.farr child (decVal ds)) (by simp at h1 hlen ⊢; omega) (by simp at h2 hlen ⊢; omega) (by simp)
+                    simp only [List.isEmpty_cons, Bool.false_eq_true, if_false]
+                    cases hd2 : arrayDims j (m0 :: mt) with
+                    | none => rw [hd2] at this; simp [this]
+                    | some r => rw [hd2] at this; simp [this, wrap]
+                · simp [hv]
+            · -- a character that is neither a digit nor the closing bracket follows the digits
+              have hcnd : isDigit c = false := by
+                have := List.head_dropWhile_not (p := isDigit) (l := rest) (by rw [hafter]; simp)
+                simpa [hafter] using this
+              have hgram : arrayDims (j + 1) ('[' :: rest) = none := by
+                simp only [arrayDims, hafter]
+                split
+                · rename_i heq; injection heq with h1' _; exact absurd h1' hcc
+                · rfl
+              rw [hgram]
+              simp only [parseArrays]
+              cases hdw : rest.dropWhile (· != ']') with
+              | nil => rfl
+              | cons x more =>
+                simp only []
+                have hmem : c ∈ rest.takeWhile (· != ']') := by
+                  rw [← hsplit, takeWhile_append_of_all _ _ _ (fun x hx => digit_ne_close (hds x hx))]
+                  simp [List.takeWhile_cons, hcc]
+                rw [arrayComponent_nondigit child _ c hmem hcnd]
+        · -- does not start with a bracket
+          have hm : parseArrays (k + 1) child (c0 :: rest) = .err := by
+            simp only [parseArrays]
+            split
+            · rename_i heq; injection heq with h _; exact absurd h hc0
+            · rfl
+          have hg : arrayDims (j + 1) (c0 :: rest) = none := by
+            unfold arrayDims
+            split
+            case h_1 => rfl
+            case h_2 => simp_all
+            case h_3 => simp_all
+            case h_4 => rfl
+          rw [hg]; exact hm
+
+mutual
+  /-- the grammar's view of a parameter: its type string and its components -/
+  def toP : Param → P
+    | .mk _ type _ _ comps => .mk type (toPs comps)
+  def toPs : List Param → List P
+    | [] => []
+    | p :: ps => toP p :: toPs ps
+end
+
+theorem drop_length_takeWhile {α : Type} (p : α → Bool) (l : List α) : l.drop (l.takeWhile p).length = l.dropWhile p := by
+  induction l with
+  | nil => rfl
+  | cons a t ih =>
+    simp only [List.takeWhile_cons, List.dropWhile_cons]
+    by_cases h : p a = true
+    · simp [h, ih]
+    · simp [h]
+
+theorem lower_ne_open {c : Char} (h : isLower c = true) : (c != '[') = true := by
+  simp only [isLower, Bool.and_eq_true, decide_eq_true_eq] at h
+  have h1 := h.1
+  rw [Char.le_def, UInt32.le_iff_toNat_le] at h1
+  simp only [bne_iff_ne, ne_eq]
+  intro hc
+  subst hc
+  revert h1; decide
+
+/-- the model's and the grammar's ways of cutting a type string into letters, suffix and array part coincide -/
+theorem split_agrees (cs : List Char) :
+    (cs.takeWhile (· != '[')).takeWhile (fun c => decide ('a' ≤ c) && decide (c ≤ 'z')) = cs.takeWhile isLower ∧
+    (cs.takeWhile (· != '[')).drop (cs.takeWhile isLower).length =
+      (cs.drop (cs.takeWhile isLower).length).takeWhile (· != '[') ∧
+    cs.dropWhile (· != '[') = (cs.drop (cs.takeWhile isLower).length).dropWhile (· != '[') := by
+  have hsplit := List.takeWhile_append_dropWhile (p := isLower) (l := cs)
+  have het := takeWhile_all isLower cs
+  rw [drop_length_takeWhile]
+  generalize hetd : cs.takeWhile isLower = et at hsplit het
+  generalize hrd : cs.dropWhile isLower = rest at hsplit
+  have hq : ∀ x ∈ et, (x != '[') = true := fun x hx => lower_ne_open (het x hx)
+  have hrest : ∀ c t, rest = c :: t → isLower c = false := by
+    intro c t hr
+    have := List.head_dropWhile_not (p := isLower) (l := cs) (by rw [hrd, hr]; simp)
+    simpa [hrd, hr] using this
+  have h1 : cs.takeWhile (· != '[') = et ++ rest.takeWhile (· != '[') := by
+    rw [← hsplit, takeWhile_append_of_all _ _ _ hq]
+  refine ⟨?_, ?_, ?_⟩
+  · rw [h1]
+    have : (fun c => decide ('a' ≤ c) && decide (c ≤ 'z')) = isLower := rfl
+    rw [this, takeWhile_append_of_all _ _ _ het]
+    have : (rest.takeWhile (· != '[')).takeWhile isLower = [] := by
+      cases hr : rest with
+      | nil => rfl
+      | cons c t =>
+        have hc := hrest c t hr
+        simp only [List.takeWhile_cons]
+        by_cases hb : (c != '[') = true
+        · simp [hb, hc]
+        · simp [hb]
+    rw [this, List.append_nil]
+  · rw [h1, List.drop_append]
+    simp
+  · rw [← hsplit, dropWhile_append_of_all _ _ _ hq]
+
+
+/-- the verdict on a list of components -/
+def ListAgrees (r : Outcome (List Ty)) (c : Option String) : Prop :=
+  match r with
+  | .ok ts => c = some (renderList ts)
+  | .err => c = none
+  | .panic => False
+
+theorem str_append_empty (a : String) : a ++ "" = a := by
+  apply String.ext; simp
+
+mutual
+  /-- **parse ⇔ grammar, with the canonical spelling.** For every parameter (any Unicode type string, any component
+      tree): the parser accepts exactly when the Solidity ABI type grammar accepts, and the rendered signature of
+      the accepted type is the grammar's canonical spelling. -/
+  theorem parse_agrees : (p : Param) → ElemAgrees (parseParam p) (canon (toP p))
+    | .mk name type idx it comps => by
+      have hcomps := parseParams_agrees comps
+      obtain ⟨hs1, hs2, hs3⟩ := split_agrees type.toList
+      unfold parseParam
+      simp only [toP, canon]
+      rw [hs1, hs2, hs3]
+      generalize type.toList.takeWhile isLower = et
+      generalize (type.toList.drop et.length).takeWhile (· != '[') = suffix
+      generalize (type.toList.drop et.length).dropWhile (· != '[') = arrays
+      -- the array part, for whatever base type comes out
+      have harr : ∀ tc : Ty,
+          ElemAgrees (if arrays.isEmpty then .ok tc else parseArrays (arrays.length + 1) tc arrays)
+            (match arrayDims (arrays.length + 1) arrays with
+              | some dims => some (render tc ++ renderDims dims)
+              | none => none) := by
+        intro tc
+        cases ha : arrays with
+        | nil => simp [ElemAgrees, arrayDims, renderDims, str_append_empty]
+        | cons a0 at' =>
+          have := arrays_agree ((a0 :: at').length + 1) ((a0 :: at').length + 1) (a0 :: at') tc (by omega) (by omega) (by simp)
+          simp only [List.isEmpty_cons, Bool.false_eq_true, if_false]
+          cases hd : arrayDims ((a0 :: at').length + 1) (a0 :: at') with
+          | none => rw [hd] at this; simp only [] at this; rw [this]; simp [ElemAgrees]
+          | some dims => rw [hd] at this; simp only [] at this; rw [this]; simp [ElemAgrees, render_wrap]
+      by_cases htup : String.ofList et = "tuple"
+      · simp only [htup, tuple_keyword, beq_self_eq_true, if_true, guards_present.1, Bool.true_and]
+        by_cases hsuf : suffix.isEmpty = true
+        · simp only [hsuf, Bool.not_true, Bool.false_eq_true, if_false]
+          cases hp : parseParams comps with
+          | panic => rw [hp] at hcomps; exact hcomps.elim
+          | err =>
+            rw [hp] at hcomps
+            simp only [ListAgrees] at hcomps
+            simp only [hcomps]
+            cases arrayDims (arrays.length + 1) arrays <;> simp [ElemAgrees]
+          | ok ts =>
+            rw [hp] at hcomps
+            simp only [ListAgrees] at hcomps
+            simp only [hcomps]
+            have := harr (.tuple (comps.map Param.name) ts)
+            simp only [render] at this
+            cases hd : arrayDims (arrays.length + 1) arrays with
+            | none => rw [hd] at this; exact this
+            | some dims => rw [hd] at this; exact this
+        · simp only [hsuf, Bool.not_false, if_true]
+          cases arrayDims (arrays.length + 1) arrays <;> simp [ElemAgrees]
+      · have hne : (String.ofList et == "tuple") = false := by simpa using htup
+        simp only [hne, tuple_keyword, Bool.false_eq_true, if_false]
+        have hel := parseElementary_agrees et suffix
+        cases hpe : parseElementary et suffix with
+        | panic => rw [hpe] at hel; exact hel.elim
+        | err =>
+          rw [hpe] at hel
+          simp only [ElemAgrees] at hel
+          simp only [hel]
+          cases arrayDims (arrays.length + 1) arrays <;> simp [ElemAgrees]
+        | ok tc =>
+          rw [hpe] at hel
+          simp only [ElemAgrees] at hel
+          simp only [hel]
+          have := harr tc
+          cases hd : arrayDims (arrays.length + 1) arrays with
+          | none => rw [hd] at this; exact this
+          | some dims => rw [hd] at this; exact this
+  theorem parseParams_agrees : (ps : List Param) → ListAgrees (parseParams ps) (canonList (toPs ps))
+    | [] => by simp [parseParams, toPs, canonList, ListAgrees, renderList]
+    | [p] => by
+      have h1 := parse_agrees p
+      simp only [parseParams, toPs, canonList]
+      cases hp : parseParam p with
+      | panic => rw [hp] at h1; exact h1.elim
+      | err => rw [hp] at h1; simp only [ElemAgrees] at h1; simp [ListAgrees, h1]
+      | ok t => rw [hp] at h1; simp only [ElemAgrees] at h1; simp [ListAgrees, h1, renderList]
+    | p :: q :: ps => by
+      have h1 := parse_agrees p
+      have h2 := parseParams_agrees (q :: ps)
+      simp only [toPs] at h2
+      simp only [parseParams, toPs, canonList]
+      simp only [parseParams] at h2
+      cases hp : parseParam p with
+      | panic => rw [hp] at h1; exact h1.elim
+      | err => rw [hp] at h1; simp only [ElemAgrees] at h1; simp [ListAgrees, h1]
+      | ok t =>
+        rw [hp] at h1; simp only [ElemAgrees] at h1
+        cases hq : parseParam q with
+        | panic => rw [hq] at h2; exact h2.elim
+        | err => rw [hq] at h2; simp only [ListAgrees] at h2; simp [ListAgrees, h1, h2]
+        | ok tq =>
+          rw [hq] at h2
+          cases hps : parseParams ps with
+          | panic => rw [hps] at h2; exact h2.elim
+          | err => rw [hps] at h2; simp only [ListAgrees] at h2; simp [ListAgrees, h1, h2]
+          | ok ts => rw [hps] at h2; simp only [ListAgrees] at h2; simp [ListAgrees, h1, h2, renderList]
+end
+
+/-- **Accepted exactly when in the grammar.** -/
+theorem accepts_iff_grammar (p : Param) : (∃ t, parseParam p = .ok t) ↔ (canon (toP p)).isSome = true := by
+  have h := parse_agrees p
+  cases hp : parseParam p with
+  | panic => rw [hp] at h; exact h.elim
+  | err => rw [hp] at h; simp only [ElemAgrees] at h; simp [h]
+  | ok t => rw [hp] at h; simp only [ElemAgrees] at h; simp [h]
+
+/-- **The rendered signature of an accepted type is its canonical spelling.** -/
+theorem rendered_is_canonical (p : Param) (t : Ty) (h : parseParam p = .ok t) : canon (toP p) = some (render t) := by
+  have := parse_agrees p
+  rw [h] at this
+  exact this
+
+/-- … and a type string outside the grammar is reported as an error (never a panic: `parse_total`). -/
+theorem outside_grammar_is_error (p : Param) (h : canon (toP p) = none) : parseParam p = .err := by
+  have := parse_agrees p
+  cases hp : parseParam p with
+  | panic => rw [hp] at this; exact this.elim
+  | err => rfl
+  | ok t => rw [hp] at this; simp only [ElemAgrees] at this; rw [h] at this; cases this
 
 /-! ### non-vacuity: concrete inputs on which the hypotheses hold (evaluated by the kernel) -/
 def okB {α : Type} : Outcome α → Bool | .ok _ => true | _ => false
